@@ -179,6 +179,12 @@ class Report:
         ev = {"property_id": self.pid, "tier": self.tier, "seed": seed(), "level": self.level,
               "coverage": self.cov, "assumptions": self.assumptions,
               "wall_s": round(time.time() - self.t0, 2), "violations": len(real)}
+        if self.violations:
+            hist = {}
+            for desc, _ in self.violations:
+                key = re.sub(r"[0-9]+", "#", desc.split(" | ")[0])[:90]
+                hist[key] = hist.get(key, 0) + 1
+            ev["coverage"]["violation_reasons"] = hist
         if self.notes:
             ev["coverage"]["notes"] = self.notes
         if self.known:
